@@ -3,7 +3,9 @@
  *
  * header:  avl <cap> | ht <cap> <table_size> <id|zero|low|mul|def> | trie <cap>
  * avl ops: ins k v | find k | rem k          -> result / "t <pre-order dump k=v:balance, . = NULL>" / "chk ..."
- * ht ops : put k v | find k | rem k | dump   -> result / "chk ok n=<count>"
+ * ht ops : put k v | find k | rem k | dump | hash k | where k  -> result / "chk ok n=<count>"
+ *          (hash k: value of the table's hash function on the key, i.e. the library's default
+ *           string hash for kind def; where k: index of the bucket whose chain holds the key)
  * trie   : ins <hex> v | find <hex> | rem <hex> | dump   -> one result line
  *
  * Keys and values are heap blocks released through the library's free
@@ -181,6 +183,14 @@ static void ht_line(const char *op, long long k, long long v)
 		printf("rem %d\n", n ? 1 : 0);
 	} else if (strcmp(op, "dump") == 0) {
 		ht_dump();
+	} else if (strcmp(op, "hash") == 0) {
+		printf("hash %llu\n", (unsigned long long)ht->hash(probe));
+	} else if (strcmp(op, "where") == 0) {
+		long found = -1;
+		for (uint64_t i = 0; i < ht->table_size && found < 0; i++)
+			for (muggle_hash_table_node_t *p = ht->nodes[i].next; p; p = p->next)
+				if (ht->cmp(p->key, probe) == 0) { found = (long)i; break; }
+		if (found >= 0) printf("where %ld\n", found); else printf("where none\n");
 	} else {
 		printf("?\n");
 		return;
